@@ -58,6 +58,48 @@ func c11Leaf(t *rapid.T, kind int) *model.Node {
 	return n
 }
 
+// c11Loosen returns a copy of n in which every stated limit is looser (or gone).
+func c11Loosen(t *rapid.T, n *model.Node) *model.Node {
+	c := *n
+	d := float64(rapid.IntRange(1, 3).Draw(t, "loosenby"))
+	drop := func(label string) bool { return rapid.IntRange(0, 3).Draw(t, label) == 0 }
+	if n.Minimum != nil {
+		if drop("dropmin") {
+			c.Minimum = nil
+		} else {
+			v := *n.Minimum - d
+			if v == 0 && c11NonZero {
+				v = -1
+			}
+			c.Minimum = &v
+		}
+	}
+	if n.Maximum != nil {
+		if drop("dropmax") {
+			c.Maximum = nil
+		} else {
+			v := *n.Maximum + d
+			c.Maximum = &v
+		}
+	}
+	if n.MinLength != nil {
+		if v := *n.MinLength - 1; v <= 0 || drop("dropminlen") {
+			c.MinLength = nil
+		} else {
+			c.MinLength = &v
+		}
+	}
+	if n.MaxLength != nil {
+		if drop("dropmaxlen") {
+			c.MaxLength = nil
+		} else {
+			v := *n.MaxLength + int(d)
+			c.MaxLength = &v
+		}
+	}
+	return &c
+}
+
 type c11Case struct {
 	file       *model.File
 	comp       *model.Node
@@ -95,7 +137,14 @@ func genC11(t *rapid.T, c *core.Ctx) *c11Case {
 		for _, name := range names {
 			var node *model.Node
 			if prev, ok := first[name]; ok {
-				if rapid.Bool().Draw(t, "identical") || !diffAllowed {
+				zeroLimit := (prev.Minimum != nil && *prev.Minimum == 0) || (prev.Maximum != nil && *prev.Maximum == 0)
+				// (a first-branch limit of 0 counts as unset for the merge: part of the same open finding)
+				if kind == model.KAllOf && !diffAllowed && !zeroLimit && rapid.Bool().Draw(t, "looser") {
+					// the open finding is "the first branch wins": that is right whenever the first branch
+					// is the strictest, so later branches may restate the property more loosely
+					node = c11Loosen(t, prev)
+					cc.overlap = "looser-later"
+				} else if rapid.Bool().Draw(t, "identical") || !diffAllowed {
 					node = prev
 					if cc.overlap == "disjoint" {
 						cc.overlap = "identical"
@@ -134,6 +183,26 @@ func genC11(t *rapid.T, c *core.Ctx) *c11Case {
 		} else {
 			comp.Branches = append(comp.Branches, b)
 			c.Count("branch.inline")
+		}
+	}
+	if kind == model.KAllOf && len(cc.branches) >= 2 && rapid.IntRange(0, 2).Draw(t, "crossrequired") == 0 {
+		// a branch requires a name that only ANOTHER branch declares (and does not require)
+		i := rapid.IntRange(0, len(cc.branches)-1).Draw(t, "crossfrom")
+		var cands []string
+		for j, b := range cc.branches {
+			if j == i {
+				continue
+			}
+			for _, p := range b.Props {
+				if cc.branches[i].Prop(p.Name) == nil && !b.IsRequired(p.Name) {
+					cands = append(cands, p.Name)
+				}
+			}
+		}
+		if len(cands) > 0 {
+			name := rapid.SampledFrom(cands).Draw(t, "crossname")
+			cc.branches[i].Required = append(cc.branches[i].Required, name)
+			c.Count("shape.cross_branch_required")
 		}
 	}
 	f.Root = &model.Node{Kind: model.KObject, Props: []model.Prop{{Name: "c", Node: comp}}, Required: []string{"c"}}
